@@ -2,7 +2,7 @@
    Property theorems only; every proof is `exact <lemma>` (or a two-line combination) from proof/C12_*.v.
    Layer 1: the containers (ring buffer, packet-number-indexed queue, windowed filter). *)
 From Hy Require Import lib.Res lib.F64 lib.F64x model.C12_Queue model.C12_Sender model.C12_Full
-  proof.C12_Ring proof.C12_PQ proof.C12_Layer1 proof.C12_Sender proof.C12_Arith proof.C12_Full proof.C12_Late.
+  proof.C12_Ring proof.C12_PQ proof.C12_Layer1 proof.C12_Sender proof.C12_Arith proof.C12_Full proof.C12_Late proof.C12_Burst.
 From Coq Require Import ZArith List Bool Lia.
 Import ListNotations.
 Local Open Scope Z_scope.
@@ -543,3 +543,20 @@ Theorem C12_pacer_negative_budget_must_not_clamp_to_zero :
   pacer_budget p bw now = 5000000 /\ pacer_budget_clamp0 p bw now = 0.
 Proof. exact clamp0_deadlocks. Qed.
 Print Assumptions C12_pacer_negative_budget_must_not_clamp_to_zero.
+
+(* (g) "does not settle far below capacity" at the pacer: the pacer's timer wakes the send loop at most once per
+   MinPacingDelay (1 ms), so the pacer sustains the bandwidth bw it is given only if a wake-up one MinPacingDelay after
+   the last packet may release what bw delivers in that time (q).  For bw in [64 KB/s, 1 TB/s): the burst cap is at least
+   4 q (the bandwidth-proportional term of maxBurstSize, computed in integer nanoseconds), the budget at that wake-up is
+   exactly min(burst cap, budget left + q), hence at least q.  (With the fallback term alone - ten datagrams - the cap is a
+   ceiling of 10 datagrams per wake-up, ~100 Mbit/s; the harness runs loss-free paths of 200 Mbit/s .. 2 Gbit/s for
+   every profile and requires >= 50% of capacity in every 5 s window.) *)
+Theorem C12_pacer_burst_sustains_rate : forall p bw,
+  c12_minBps <= bw < 1000000000000 -> 0 < p_mds p <= c12_MaxPacketBufferSize ->
+  0 < p_last p < 4611686018427387904 -> 0 <= p_budget p < 4611686018427387904 ->
+  let q := c12_MinPacingDelayNs * bw / 1000000000 in
+  4 * q <= max_burst p bw /\
+  pacer_budget p bw (p_last p + c12_MinPacingDelayNs) = Z.min (max_burst p bw) (p_budget p + q) /\
+  q <= pacer_budget p bw (p_last p + c12_MinPacingDelayNs).
+Proof. exact pacer_burst_sustains_rate. Qed.
+Print Assumptions C12_pacer_burst_sustains_rate.
